@@ -620,9 +620,18 @@ fn put_tabix_header(rng: &mut Rng, p: &mut Vec<u8>, hist: &mut Vec<String>) {
     p.extend_from_slice(&(*rng.pick(&[b'#', b'@', 0u8]) as u32).to_le_bytes());
     p.extend_from_slice(&(rng.below(3) as u32).to_le_bytes());
     let mut names = vec![];
-    for i in 0..rng.below(4) {
-        names.extend_from_slice(format!("sq{i}").as_bytes());
-        names.push(0);
+    if rng.chance(1, 4) {
+        // a names block of several hundred bytes: BGZF member boundaries (and short reads) fall inside it
+        for i in 0..8 + rng.below(40) {
+            names.extend_from_slice(format!("scaffold_{i}_{}", "x".repeat(rng.below(12) as usize)).as_bytes());
+            names.push(0);
+        }
+        hist.push("index_gen:names-long-block".into());
+    } else {
+        for i in 0..rng.below(4) {
+            names.extend_from_slice(format!("sq{i}").as_bytes());
+            names.push(0);
+        }
     }
     match rng.below(14) {
         0 if !names.is_empty() => {
